@@ -44,6 +44,15 @@ func (e *Engine) runInits(ld *Loaded) *State {
 		}()
 	}
 	e.assumes = nil
+	e.axioms = nil
+	e.axiomSeen = map[int]bool{}
+	e.inInit = false
+	for k, t := range st.comps {
+		s := e.compSortOf(k)
+		if s.Kind == "array" {
+			st.comps[k] = rebase(t, Sym("0:"+k, s))
+		}
+	}
 	return st
 }
 
@@ -74,6 +83,8 @@ func (e *Engine) verifyFunction(c *Contract, init *State) (res *FuncResult) {
 	e.unmodelled = map[string]int{}
 	e.usedModels = map[string]bool{}
 	e.bitDefs = nil
+	e.pureSeen = map[int]bool{}
+	e.allocParent = map[int]*Term{}
 	e.topFn = fn
 	e.topContract = c
 	e.depth = 0
@@ -104,6 +115,7 @@ func (e *Engine) verifyFunction(c *Contract, init *State) (res *FuncResult) {
 	st := init.clone()
 	A0 := Sym("A0", IntS)
 	e.axiom(Ge(A0, e.comp(init, allocComp)))
+	NoteLowerBound(A0, e.comp(init, allocComp))
 	e.inputLow = e.comp(init, allocComp)
 	st.comps[allocComp] = A0
 	e.alloc0 = A0
